@@ -1,4 +1,5 @@
 import AdeptProofs.Lemmas.Assign
+import AdeptModel.Generated.AliasNodes
 /-!
 # C04 — array statements have element-wise value semantics despite aliasing / layout
 
@@ -229,6 +230,21 @@ example : let a : View := ⟨1, [4], [1]⟩; let b : View := ⟨0, [4], [1]⟩
 
 /-- scalar into a reversed view (the F-02 witness): all five cells are written -/
 example : (List.range 5).map (assignScalar ⟨4, [5], [-1]⟩ 7 ⟨fun _ => 1⟩ ∘ Int.ofNat) = [7, 7, 7, 7, 7] := by
+  decide
+
+/-- CENSUS of the alias test.  `rhs.is_aliased(mem1, mem2)` is answered node by node through `is_aliased_`; the model's
+    `isAliased` is one recursion over the expression tree.  The table `AliasCensus.aliasNodes` is REGENERATED from
+    include/adept/*.h by translate/alias.py on every run: for every class that defines `is_aliased_` it lists the operands the
+    class holds (those its `expression_string_` prints), the operands its alias test consults, and a classification.  No class
+    is broken: every inner node consults exactly its operands, each with the range `(mem1, mem2)` handed down unchanged and in
+    order; the array-like leaves compare their own data range with it; scalar leaves own no array memory; the only nodes that
+    answer `false` while holding an array operand are `noalias` (the user's promise) and the bool-valued comparison nodes (the
+    type boundary of open findings F-25 / F-38); IndexedArray consults the array it indexes (its index vectors are the stated
+    assumption of this property's check). -/
+theorem C04_every_node_alias_test_forwards :
+    AliasCensus.aliasNodes.all (fun n => decide (n.2.2.2.2 ≠ AliasCensus.AliasKind.broken)) = true ∧
+    AliasCensus.aliasNodes.all (fun n =>
+      decide (n.2.2.2.2 = AliasCensus.AliasKind.forwardsAll → n.2.2.1 = n.2.2.2.1 ∨ n.2.2.1.reverse = n.2.2.2.1)) = true := by
   decide
 
 end Adept.Assign
